@@ -435,3 +435,16 @@ PROPS["C04"] = {
     "assumptions": ["winner selection depends only on on-disk timestamps and positions (what the iteration analysis havocs)"],
     "outside": "whole-image idempotence, crash points inside recovery, remove_expired_recovery_winners' interplay with time",
 }
+
+PROPS["C14"] = {
+    "engine_name": "E2-mir-smt",
+    "technique": "SMT (z3) path-condition entailment and trace obligations over the MIR of one arbitrary iteration of range_query's scan loop",
+    "level_text": "Reduced claim – the loop's own logic, with the skiplist's ordered iteration trusted: in ONE ARBITRARY iteration a pair is appended only while results.len() < limit and only when the entry's key is <= end_key (both checked in that iteration); the pair is (this entry's key, the value resolved for the record loaded from this entry's slot under the epoch guard); the record reference is never used after the guard is repinned; a continuing iteration advances the cursor exactly once; the scan starts at lower_bound(Included(start_key)). With ascending iteration this gives: within the inclusive bounds, at most limit, the smallest such keys, each with its own value. TTL updates republish the ordered-index slot (so scans see the current generation).",
+    "level_note": E2NOTE + ". NOT decided: ordered iteration of crossbeam-skiplist under concurrent mutation, absence/duplication of keys under writers, agreement of the two indexes at quiescence, expiry filtering inside resolve_value_ref.",
+    "functions": ["src/core/store/range.rs::range_query", TTL + "::update_ttl"],
+    "smt": "c14",
+    "bounds": "one arbitrary loop iteration (state havocked at the loop header)",
+    "stubs": [],
+    "assumptions": ["crossbeam-skiplist iterates keys in ascending byte order and lower_bound is correct"],
+    "outside": "concurrency, index agreement, skiplist internals",
+}
